@@ -111,7 +111,14 @@ Inductive case :=
   (* UnixNanoID: starting value, per caller (supplied ts, returned id) *)
 | CNano (cur : Z) (owners : list nat) (per : list (list dpair))
   (* Setup: layout before, the options applied, then the probes IDParse(0).time, IDFields(MaxInt64), IDFields(1) *)
-| CSetup (c0 : cfg) (opts : list opt) (p_epoch : Z) (f_max f_one : Z * Z * Z).
+| CSetup (c0 : cfg) (opts : list opt) (p_epoch : Z) (f_max f_one : Z * Z * Z)
+  (* stress run of one public generating entry point (GenID, GenIDByTS, HardNode.Generate, MonoNode.Generate) with many
+     callers released from a barrier: a sample of what each caller got, in the caller's own order (differences), the
+     restart point `floor`, and a witness order.  Order-free clauses only: pairwise distinct, per caller increasing,
+     above the restart point *)
+| CStress (floor : Z) (owners : list nat) (per : list (list Z))
+  (* source audit of the entry points the lint cannot express (a method that only delegates to a locked one) *)
+| CAudit (ok : bool).
 
 (* ---------------------------------------------------------------- HardNode *)
 Definition hard_model_obs (c : cfg) (node : Z) (s0 : st) (clocks : list Z) : list obs :=
@@ -304,6 +311,14 @@ Proof.
   destruct (lowest (setup c0 opts)); destruct HW as [-> | [-> | ->]]; vm_compute; reflexivity.
 Qed.
 
+(* ---------------------------------------------------------------- stress samples / audit *)
+(* replaying the witness pops every caller's ids in the caller's order; the replayed sequence strictly increasing and
+   above the floor says: all sampled ids pairwise distinct, each caller's own ids strictly increasing, all above the
+   restart point.  This is what c06_hard_any_schedule / c06_nano_any_schedule / c06_mono_strictly_increasing give for
+   every subset of the ids of any execution; accept and holds coincide (no clock is observable here). *)
+Definition stress_ok (floor : Z) (owners : list nat) (per : list (list Z)) : bool :=
+  match lin owners per with None => false | Some l => incr_from floor l end.
+
 (* ================================================================ what the driver calls *)
 Definition case_accept (x : case) : bool :=
   match x with
@@ -312,6 +327,8 @@ Definition case_accept (x : case) : bool :=
   | CMono c node err owners per => accept_mono c node err owners (map (dec_obs 0 0) per)
   | CNano cur owners per => accept_nano cur owners (map (dec_pairs 0 0) per)
   | CSetup c0 opts p_epoch f_max f_one => accept_setup c0 opts p_epoch f_max f_one
+  | CStress floor owners per => stress_ok floor owners (map (undelta 0) per)
+  | CAudit ok => ok
   end.
 
 Definition case_holds (x : case) : bool :=
@@ -321,14 +338,18 @@ Definition case_holds (x : case) : bool :=
   | CMono c node err owners per => holds_mono node err owners (map (dec_obs 0 0) per)
   | CNano cur owners per => holds_nano cur owners (map (dec_pairs 0 0) per)
   | CSetup c0 opts p_epoch f_max f_one => holds_setup c0 f_max
+  | CStress floor owners per => stress_ok floor owners (map (undelta 0) per)
+  | CAudit ok => true
   end.
 
 Theorem case_sound : forall x, case_accept x = true -> case_holds x = true.
 Proof.
-  intros [c node min minf clocks err owners per | c node err owners per | cur owners per | c0 opts pe fm fo];
-    cbn [case_accept case_holds].
+  intros [c node min minf clocks err owners per | c node err owners per | cur owners per | c0 opts pe fm fo
+          | fl owners per | ok]; cbn [case_accept case_holds].
   - apply hard_sound.
   - apply mono_sound.
   - apply nano_sound.
   - apply setup_sound.
+  - auto.
+  - auto.
 Qed.
